@@ -1493,3 +1493,120 @@ int main(void) {
     if cfg.api != 'nr':
         txt = txt.replace('#ifdef VP_WRAP_ARG', '#if 1')
     return txt
+
+
+def iso_harness(g, cfg, spec, n, witness=False):
+    """Two instances of a reentrant scanner: stepping one leaves every byte
+    of the other's state, buffer object and text unchanged, and each yields
+    its own reference token."""
+    H = [common_head(g, cfg, spec, max(n, 1)), action_table(spec), eof_table(spec)]
+    H.append('#define VP_N %d' % n)
+    if witness:
+        H.append('#define VP_WITNESS 1')
+    H.append(r'''
+unsigned char vpi_a[VP_N > 0 ? VP_N : 1], vpi_b[VP_N > 0 ? VP_N : 1];
+int vpi_sca, vpi_scb;
+static char vp_bufa[VP_N + 2], vp_bufb[VP_N + 2];
+
+int main(void) {
+#ifdef REPLAY
+#include "vp_replay_set.inc"
+#else
+  for (int i = 0; i < VP_N; i++) { vpi_a[i] = nondet_uchar(); vpi_b[i] = nondet_uchar(); }
+  vpi_sca = nondet_int(); vpi_scb = nondet_int();
+#endif
+  VP_ASSUME(vpi_sca >= 0 && vpi_sca < VP_NSC && vpi_scb >= 0 && vpi_scb < VP_NSC);
+  int nuls = 0;
+  for (int i = 0; i < VP_N; i++) { if (!vpi_a[i]) nuls++; if (!vpi_b[i]) nuls++; vp_bufa[i] = (char)vpi_a[i]; vp_bufb[i] = (char)vpi_b[i]; }
+  VP_ASSUME(nuls <= 1);
+  vp_bufa[VP_N] = vp_bufa[VP_N + 1] = 0; vp_bufb[VP_N] = vp_bufb[VP_N + 1] = 0;
+  vp_expect_fatal = 0;
+  yyscan_t sa, sb;
+  int rc = yylex_init(&sa); VP_ASSERT(rc == 0, "yylex_init A");
+  rc = yylex_init(&sb); VP_ASSERT(rc == 0, "yylex_init B");
+  VP_ASSERT(sa != sb, "distinct instances");
+  yybuffer ba = yy_scan_buffer(vp_bufa, VP_N + 2, sa);
+  yybuffer bb = yy_scan_buffer(vp_bufb, VP_N + 2, sb);
+  VP_ASSERT(ba != 0 && bb != 0 && ba != bb, "buffers");
+  VP_SET_START(sa, vpi_sca); VP_SET_START(sb, vpi_scb);
+  int tota = 0, totb = 0;
+  int ra = vp_first_token(vpi_a, VP_N, vpi_sca, 1, &tota);
+  int rb = vp_first_token(vpi_b, VP_N, vpi_scb, 1, &totb);
+  /* instance A stays in the state its creation left it in (one yylex() call per query keeps the
+   * formula within reach); snapshot of everything instance A owns */
+  int ta = vp_actid[ra];
+  struct yyguts_t snap = *(struct yyguts_t *)sa;
+  struct yy_buffer_state snapb = *ba;
+  char snapt[VP_N + 2];
+  for (int i = 0; i < VP_N + 2; i++) snapt[i] = vp_bufa[i];
+  int tb = yylex(sb);
+  if (VP_N == 0) { VP_ASSERT(tb == vp_eofret[vpi_scb], "end of input"); }
+  else {
+    VP_ASSERT(tb == vp_actid[rb], "instance B yields its own token, unaffected by A");
+    VP_ASSERT(vp_has_trail(rb) || VP_LENG_OF(sb) == totb, "instance B token length");
+  }
+  {
+    struct yyguts_t *ga = (struct yyguts_t *)sa;
+#define VP_SAME(f) VP_ASSERT(snap.f == ga->f, "stepping B leaves A's scanner state unchanged: " #f)
+    VP_SAME(yy_c_buf_p); VP_SAME(yy_hold_char); VP_SAME(yy_n_chars); VP_SAME(yy_start); VP_SAME(yy_init);
+    VP_SAME(yytext_r); VP_SAME(yyleng_r); VP_SAME(yy_buffer_stack); VP_SAME(yy_buffer_stack_top); VP_SAME(yy_buffer_stack_max);
+    VP_SAME(yyin_r); VP_SAME(yyout_r); VP_SAME(yy_did_buffer_switch_on_eof);
+    VP_ASSERT(ga->yy_buffer_stack[ga->yy_buffer_stack_top] == ba, "A's current buffer unchanged");
+  }
+  if (VP_N > 0) {
+#define VP_SAMEB(f) VP_ASSERT(snapb.f == ba->f, "stepping B leaves A's buffer object unchanged: " #f)
+    VP_SAMEB(yy_ch_buf); VP_SAMEB(yy_buf_pos); VP_SAMEB(yy_buf_size); VP_SAMEB(yy_n_chars); VP_SAMEB(yy_buffer_status); VP_SAMEB(yy_fill_buffer);
+    for (int i = 0; i < VP_N + 2; i++) VP_ASSERT(snapt[i] == vp_bufa[i], "stepping B leaves A's text unchanged");
+  }
+#ifdef VP_WITNESS
+  VP_ASSERT(!(VP_N > 0 && tb == 1 && yyget_leng(sb) == VP_N), "WITNESS: instance B returns a long token of rule 1");
+#endif
+  yylex_destroy(sa); yylex_destroy(sb);
+  return 0;
+}
+''')
+    txt = '\n'.join(H)
+    if cfg.api == 'r':
+        txt = txt.replace('VP_SET_START(sa, vpi_sca); VP_SET_START(sb, vpi_scb);',
+                          '((struct yyguts_t *)sa)->yy_start = 1 + 2 * vpi_sca; ((struct yyguts_t *)sb)->yy_start = 1 + 2 * vpi_scb;')
+        txt = txt.replace('VP_LENG_OF(sb)', 'yyget_leng(sb)')
+    else:
+        txt = txt.replace('VP_SET_START(sa, vpi_sca); VP_SET_START(sb, vpi_scb);', 'yybegin(vpi_sca, sa); yybegin(vpi_scb, sb);')
+        txt = txt.replace('VP_LENG_OF(sb)', 'yyget_leng(sb)')
+    return txt
+
+
+
+TABLE_LOADER = r'''
+/* serialized tables (--tables-file): the bytes flex wrote are embedded and
+ * handed to the generated reader yytables_fload() through stdio stubs */
+static const unsigned char vp_tbl[] = { %(bytes)s };
+static size_t vp_tbl_pos; static int vp_tbl_err;
+#ifndef REPLAY
+static int vp_tbl_file;
+size_t fread(void *p, size_t sz, size_t n, FILE *f) {
+  size_t want = sz * n, have = sizeof vp_tbl - vp_tbl_pos;
+  if (want > have) { vp_tbl_pos = sizeof vp_tbl; return 0; }
+  for (size_t i = 0; i < 8; i++) if (i < want) ((unsigned char *)p)[i] = vp_tbl[vp_tbl_pos + i];
+  vp_tbl_pos += want;
+  return n;
+}
+int feof(FILE *f) { return vp_tbl_pos >= sizeof vp_tbl; }
+int fseek(FILE *f, long off, int wh) { vp_tbl_pos += (size_t)off; return 0; }
+#define VP_TBL_OPEN() ((FILE *)&vp_tbl_file)
+#else
+#define VP_TBL_OPEN() fmemopen((void *)vp_tbl, sizeof vp_tbl, "rb")
+#endif
+#define VP_LOAD_TABLES() do { int vp_lrc = yytables_fload(VP_TBL_OPEN() VP_A1); VP_ASSERT(vp_lrc == 0, "yytables_fload succeeds on the file flex wrote"); } while (0)
+'''
+
+
+def with_tables(harness_text, g, tables_path):
+    """Turn an e1/e2 harness into one that first loads the serialized tables."""
+    with open(tables_path, 'rb') as fh:
+        data = fh.read()
+    loader = TABLE_LOADER % dict(bytes=','.join(str(b) for b in data))
+    marker = 'static void vp_fatal(const char *m) {'
+    harness_text = harness_text.replace(marker, loader + '\n' + marker, 1)
+    harness_text = harness_text.replace('  VP_INIT_SCANNER();\n', '  VP_INIT_SCANNER();\n  VP_LOAD_TABLES();\n', 1)
+    return harness_text, len(data)
